@@ -71,7 +71,8 @@ def noise_relevant(nm) -> set[str]:
     return spec_relevant(lambda p: getattr(nm, p))
 
 
-FAMILIES = ["channel", "device", "layout", "noise", "simconfig", "register", "detmap", "config", "results", "stateop"]
+FAMILIES = ["channel", "device", "layout", "noise", "simconfig", "register", "detmap", "config", "results", "stateop",
+            "configalias"]
 
 FLOATS = [0.1, 0.25, 0.5, 1.0, 1.5, 2.0, 2.5, 4.0, 10.0, 12.5, 2 * math.pi, 15.7, 31.4, 125.66, 1e-3, 0.3, 7.0]
 
@@ -576,12 +577,32 @@ def gen_stateop(rng) -> dict:
                 eig_container=rng.choice(["list", "tuple"]))
 
 
+def gen_configalias(rng) -> dict:
+    """A config spec whose arguments include caller-owned mutable containers: an array-valued interaction
+    matrix, list- and dict-valued extra options, an observable with an evaluation-times list."""
+    s = gen_config(rng)
+    n = len(next(iter(s["initial_state"]["amplitudes"]))) if "initial_state" in s else rng.choice([1, 2, 3])
+    if s["cls"] == "EmulationConfig":
+        m = [[0.0] * n for _ in range(n)]
+        for a in range(n):
+            for b in range(a + 1, n):
+                m[a][b] = m[b][a] = rng.choice([0.5, 1.5, 2])
+        s["interaction_matrix"] = m
+    s["extra"] = {"my_option": {"k": [1, 2], "name": "x"}, "my_list": [rng.choice([1, 2, 3]), 0.5]}
+    if not s["observables"]:
+        s["observables"] = [dict(kind="energy", evaluation_times=None, tag_suffix=None)]
+    s["observables"][0]["evaluation_times"] = [0.25, 0.5]
+    if "default_evaluation_times" not in s or s["default_evaluation_times"] == "Full":
+        s["default_evaluation_times"] = [0.5, 1.0]
+    return s
+
+
 GENERATORS = {
     "channel": lambda rng: (gen_dmm(rng) if rng.random() < 0.2 else gen_channel(rng)),
     "device": gen_device, "layout": gen_layout, "noise": gen_noise,
     "simconfig": lambda rng: gen_noise(rng, allow_irrelevant=False),
     "register": gen_register, "detmap": gen_detmap, "config": gen_config, "results": gen_results,
-    "stateop": gen_stateop,
+    "stateop": gen_stateop, "configalias": gen_configalias,
 }
 
 
@@ -776,8 +797,8 @@ def build(family: str, spec):
             return build_config(spec)
         if family == "results":
             return build_results(spec)
-        if family == "stateop":
-            return spec  # built (twice, from shared containers) inside run_stateop
+        if family in ("stateop", "configalias"):
+            return spec  # built (twice, from shared containers) inside run_stateop / run_configalias
     raise ValueError(family)
 
 
@@ -1134,7 +1155,8 @@ def _key(family, spec, clause, field=None, exc=None, obj=None, case=None) -> dic
            "layout": lambda: "RegisterLayout", "noise": lambda: "NoiseModel", "simconfig": lambda: "SimConfig",
            "register": lambda: "Register3D" if spec["dim"] == 3 else "Register", "detmap": lambda: "DetuningMap",
            "config": lambda: spec["cls"], "results": lambda: "Results",
-           "stateop": lambda: "QutipState" if spec["cls"] == "qutip" else "StateRepr"}[family]()
+           "stateop": lambda: "QutipState" if spec["cls"] == "qutip" else "StateRepr",
+           "configalias": lambda: spec["cls"]}[family]()
     k = dict(clause=clause, **{"class": cls})
     if field is not None:
         k["field"] = field
@@ -1609,6 +1631,97 @@ def run_stateop(spec) -> list[Fail]:
             except Exception as e:  # noqa: BLE001
                 fails.append(Fail("encode", dict(clause="encode", **{"class": op_cls.__name__},
                                                  exception=type(e).__name__), f"operator round trip raised {e!r}"[:300]))
+    return fails
+
+
+def run_configalias(spec) -> list[Fail]:
+    """Two configs built from the *same* caller-owned containers (observable list, evaluation-times lists,
+    interaction matrix array, list/dict-valued options): they share no mutable container; changing the caller's
+    containers afterwards, or the options stored in one config, changes neither the other config nor what it
+    serialises to."""
+    from pulser.json.abstract_repr.serializer import AbstractReprEncoder
+
+    spec = copy.deepcopy(spec)  # the containers built below are handed to the library and then modified
+    cfg_cls, state_cls, op_cls = _config_types(spec["cls"])
+    fails: list[Fail] = []
+
+    def key(field, case):
+        return dict(clause="aliasing", **{"class": spec["cls"]}, field=field, case=case)
+
+    def view(cfg):
+        return tb.vobj([("fields", deep_snapshot("config", cfg)),
+                        ("json", tb.json_value(json.loads(json.dumps(cfg, cls=AbstractReprEncoder))))])
+
+    def top(diffs):
+        for d in diffs:
+            parts = [x for x in d.replace("[", ".").split(".") if x]
+            for x in parts:
+                if x not in ("fields", "json", "class"):
+                    return x
+        return "?"
+
+    with warnings.catch_warnings():
+        warnings.simplefilter("ignore")
+        # ---- the caller's own objects
+        obs = [build_observable(o, state_cls, op_cls) for o in spec["observables"]]
+        kw: dict = dict(observables=obs)
+        times = list(spec["default_evaluation_times"])
+        kw["default_evaluation_times"] = times
+        matrix = None
+        if "interaction_matrix" in spec:
+            matrix = np.array(spec["interaction_matrix"], dtype=float)
+            kw["interaction_matrix"] = matrix
+        for k in ("with_modulation", "prefer_device_noise_model", "sampling_rate"):
+            if k in spec:
+                kw[k] = spec[k]
+        if "initial_state" in spec:
+            kw["initial_state"] = build_state(spec["initial_state"], state_cls)
+        if "noise" in spec:
+            kw["noise_model"] = build_noise(spec["noise"])
+        extra = copy.deepcopy(spec["extra"])
+        kw.update(extra)
+        a = cfg_cls(**kw)
+        before = view(a)
+        b = cfg_cls(**kw)
+        shared = sorted({type(v).__name__ for i, v in _mutables(a._backend_options, depth=6).items()
+                         if i in _mutables(b._backend_options, depth=6)})
+        if shared:
+            fails.append(Fail("aliasing", key("backend_options", "shared-container"),
+                              f"two configs built from the same arguments share mutable containers: {shared}"))
+        # ---- the caller goes on using its containers
+        if matrix is not None and matrix.shape[0] > 1:
+            matrix[0, 1] += 1.0
+            matrix[1, 0] += 1.0
+        extra["my_option"]["k"].append(3)
+        extra["my_option"]["new"] = True
+        extra["my_list"].append(9)
+        kw["my_option"]["other"] = 1
+        times.append(2.0)
+        if isinstance(obs[0].evaluation_times, list):
+            obs[0].evaluation_times.append(0.75)
+        obs.append(obs[0])
+        d1 = diff_values(before, view(a))
+        if d1:
+            fails.append(Fail("aliasing", key(top(d1), "caller-container"),
+                              f"changing the caller's arguments after construction changed the config at {d1[:3]}"))
+        # ---- the other config's stored options are changed in place
+        mid = view(a)
+        bo = b._backend_options
+        bo["my_option"]["k"].append(4)
+        bo["my_list"].append(7)
+        im = bo.get("interaction_matrix")
+        if im is not None:
+            arr = im.as_array(detach=True) if hasattr(im, "as_array") else np.asarray(im)
+            if arr.shape[0] > 1:
+                arr[0, 1] += 2.0
+                arr[1, 0] += 2.0
+        bobs = bo["observables"]
+        if bobs and isinstance(bobs[0].evaluation_times, list):
+            bobs[0].evaluation_times.append(1.0)
+        d2 = diff_values(mid, view(a))
+        if d2:
+            fails.append(Fail("aliasing", key(top(d2), "other-instance"),
+                              f"changing the options stored in another config changed this one at {d2[:3]}"))
     return fails
 
 
